@@ -54,7 +54,7 @@ Print Assumptions C02_sofa_roundtrip.
 (* ---- the document: for every CAS, every mode, the whole writer mechanism (views loop with id assignment to sofa byte
    arrays, traversal, per-kind encoders, %TYPES) ---- *)
 Theorem C02_denote_save_json : forall L s mode c d c',
-  lex_ok L -> save_json L s mode c = Ok (d, c') -> wf_jsonb s c' = true -> stableb L s c = true ->
+  lex_ok L -> save_json L s mode c = Ok (d, c') -> wf_jsonb s c' = true -> 0 < c_next_id c ->
   denote_json L s d = canon_json s c'.
 Proof. exact denote_save_json. Qed.
 Print Assumptions C02_denote_save_json.
@@ -115,15 +115,15 @@ Print Assumptions C02_old_docann_skip_refuted.
    proved here), and equality of the denotations of the two documents; JSON-value equality of the re-serialisation is
    established per case by the correspondence (model document = implementation document, both saves) and the oracle. *)
 Theorem C02_json_roundtrip_partial : forall L s mode c d c',
-  lex_ok L -> save_json L s mode c = Ok (d, c') -> wf_jsonb s c' = true -> stableb L s c = true ->
+  lex_ok L -> save_json L s mode c = Ok (d, c') -> wf_jsonb s c' = true -> 0 < c_next_id c ->
   load_json L s d = denote_json L s d -> load_json L s d = canon_json s c'.
 Proof. exact json_roundtrip_given_reader. Qed.
 Print Assumptions C02_json_roundtrip_partial.
 
 Theorem C02_json_resave_equal_partial : forall L s m1 m2 c1 d1 c1' c2 d2 c2',
   lex_ok L ->
-  save_json L s m1 c1 = Ok (d1, c1') -> wf_jsonb s c1' = true -> stableb L s c1 = true ->
-  save_json L s m2 c2 = Ok (d2, c2') -> wf_jsonb s c2' = true -> stableb L s c2 = true ->
+  save_json L s m1 c1 = Ok (d1, c1') -> wf_jsonb s c1' = true -> 0 < c_next_id c1 ->
+  save_json L s m2 c2 = Ok (d2, c2') -> wf_jsonb s c2' = true -> 0 < c_next_id c2 ->
   canon_json s c1' = canon_json s c2' -> denote_json L s d1 = denote_json L s d2.
 Proof. exact json_resave_same_denotation. Qed.
 Print Assumptions C02_json_resave_equal_partial.
@@ -159,7 +159,7 @@ Example C02_premises_hold :
   let s := full_schema (c_user ex_case) in
   match save_json std_lex s MMinimal (c_cas ex_case) with
   | Ok (d, c') =>
-      wf_jsonb s c' = true /\ stableb std_lex s (c_cas ex_case) = true /\ ids_distinctb s c' = true /\
+      wf_jsonb s c' = true /\ 0 < c_next_id (c_cas ex_case) /\ ids_distinctb s c' = true /\
       schema_okb s = true /\ doc_ok_json std_lex s d = true /\
       denote_json std_lex s d = canon_json s c' /\ load_json std_lex s d = canon_json s c' /\
       (3 <= List.length (c_views c'))%nat /\ (5 <= List.length (c_heap c'))%nat
